@@ -174,6 +174,7 @@ func cmdRun(args []string) int {
 			ec.MaxPaths = *maxPaths
 		}
 		ec.Opt = gosym.Options{MaxSteps: 2000000, LoopBound: 64, DelayBound: 1, Seed: seed, Tier: tierN, CrossPct: 2 + 98*tierN}
+		ec.Opt.NoPOR = os.Getenv("VF_NOPOR") == "1"
 		if d, err := strconv.Atoi(os.Getenv("VF_DELAY")); err == nil {
 			ec.Opt.DelayBound = d // development override
 		}
@@ -200,7 +201,7 @@ func cmdRun(args []string) int {
 	}
 	ev.WallS = time.Since(t0).Seconds()
 	evPath := filepath.Join(verifDir, "evidence", *prop+".json")
-	if *only != "" || *maxPaths > 0 || os.Getenv("VF_DELAY") != "" || os.Getenv("VF_EVIDENCE_DIR") != "" {
+	if *only != "" || *maxPaths > 0 || os.Getenv("VF_DELAY") != "" || os.Getenv("VF_NOPOR") != "" || os.Getenv("VF_EVIDENCE_DIR") != "" {
 		// development runs (filtered / overridden) and runs against a deliberately changed tree never overwrite the registered evidence
 		d := os.Getenv("VF_EVIDENCE_DIR")
 		if d == "" {
